@@ -31,16 +31,52 @@ Definition k8s_dyn_repo_after (ok : cid -> bool) (nn : nat) (h : list k8s_event)
   last (map snd (k8s_dyn_steps ok pclash k8c_srcs nn ks_empty a_empty h)) (map (fun _ => None) k8c_srcs).
 
 
-(** C18-F10: at the end of some event of a well-formed history the Kubernetes provider's repository (model, real
-    answers of a processor with path conflicts) is not quiescent: a RuleSet that could be applied now is not loaded *)
+(** ** The guards of C18-F10 / C18-F11, computed from the HISTORY and the specification alone (no provider model)
+
+    The reference is a provider that does exactly what every look at a source demands ([spec_repo_steps]: a valid
+    content other than the loaded one is loaded iff it can be applied at that look).  The finding is the situation in
+    which even this reference ends an event non-quiescent: a source's latest valid content was refused at the last
+    look at it because another source held a competing content, that competitor has since gone or changed, and there
+    has been no look at the refused source since.  Any OTHER way of ending non-quiescent — an accepted content that
+    is not applied, the wrong source unloaded, a gone source still loaded — is outside the guards. *)
+
+(** Kubernetes: a look that offers something.  A delivery of an object of the class with the UID and generation the
+    API server last told about it (status update, repeated delivery, relist) offers nothing — the statement of C18-F10
+    includes "no new generation". *)
+Definition k8s_offer_view (s : kstore) (a : katom) : list (sid * sobs) :=
+  match a with
+  | AUpsert o =>
+    match s (k_name o) with
+    | Some old => if Nat.eqb (k_uid old) (k_uid o) && k_cls o && k_cls old && Nat.eqb (k_gen o) (k_gen old)
+                  then [] else k8s_atom_view s a
+    | None => k8s_atom_view s a
+    end
+  | _ => k8s_atom_view s a
+  end.
+
+Fixpoint k8s_offer_views (s : kstore) (atoms : list katom) : list (list (sid * sobs)) :=
+  match atoms with
+  | [] => []
+  | a :: r => k8s_offer_view s a :: k8s_offer_views (ks_atom s a) r
+  end.
+
+(** what the reference holds after the events [h] *)
+Definition k8s_ref_repo_after (ok : cid -> bool) (nn : nat) (h : list k8s_event) : list (option cid) :=
+  last (spec_repo_steps ok pclash k8c_srcs a_empty (k8s_offer_views ks_empty (k8s_atoms_from nn ks_empty h)))
+       (map (fun _ => None) k8c_srcs).
+
 Definition k8s_guard_F10 (ok : cid -> bool) (nn skip : nat) (h : list k8s_event) : bool :=
   k8s_wf nn h &&
-  existsb (fun pre => negb (quiescent ok k8c_srcs (k8s_seen_after nn pre) (repo_fun k8c_srcs (k8s_dyn_repo_after ok nn pre))))
+  existsb (fun pre => negb (quiescent ok k8c_srcs (k8s_seen_after nn pre) (repo_fun k8c_srcs (k8s_ref_repo_after ok nn pre))))
           (prefixes_from skip h).
 
-(** C18-F11: the same for the file-system provider *)
+(** file system: every notification for a file is a look at it (histories without initial loads) *)
 Definition fs_seen_after (h : list fs_event) : seen_map :=
   seen_of (mk_trace (fs_views (fun _ => true) h) (map (fun _ => []) h)).
+
+Definition fs_ref_repo_after (ok : cid -> bool) (n : nat) (h : list fs_event) : list (option cid) :=
+  let srcs := map Sid (seq 0 n) in
+  last (spec_repo_steps ok pclash srcs a_empty (fs_views (fun _ => true) h)) (map (fun _ => None) srcs).
 
 Definition fs_dyn_repo_after (ok : cid -> bool) (n : nat) (h : list fs_event) : list (option cid) :=
   let srcs := map Sid (seq 0 n) in
@@ -48,7 +84,7 @@ Definition fs_dyn_repo_after (ok : cid -> bool) (n : nat) (h : list fs_event) : 
 
 Definition fs_guard_F11 (ok : cid -> bool) (n : nat) (h : list fs_event) : bool :=
   let srcs := map Sid (seq 0 n) in
-  existsb (fun pre => negb (quiescent ok srcs (fs_seen_after pre) (repo_fun srcs (fs_dyn_repo_after ok n pre))))
+  existsb (fun pre => negb (quiescent ok srcs (fs_seen_after pre) (repo_fun srcs (fs_ref_repo_after ok n pre))))
           (prefixes_from 0 h).
 
 (** witnesses *)
@@ -57,7 +93,9 @@ Definition hk_F10 : list k8s_event := [KWatch WAdded kA1; KWatch WAdded kB1; KWa
 Theorem k8s_F10_refuted :
   let ok := fun _ : cid => true in
   k8s_wf 2 hk_F10 = true /\ k8s_guard_F10 ok 2 0 hk_F10 = true /\
-  (* B's rule set (content 5) is valid, nothing holds its path any more, and it is not loaded *)
+  (* the provider model ends where the reference ends: B's rule set (content 5) is valid, nothing holds its path
+     any more, and it is not loaded *)
+  k8s_dyn_repo_after ok 2 hk_F10 = k8s_ref_repo_after ok 2 hk_F10 /\
   k8s_dyn_repo_after ok 2 hk_F10 = map (fun _ => None) k8c_srcs /\
   free_for pclash k8c_srcs (repo_fun k8c_srcs (k8s_dyn_repo_after ok 2 hk_F10)) (Sid 1) 5 = true /\
   (* a relist that delivers B again with the same generation does not help; a new generation does *)
